@@ -46,8 +46,9 @@ package rules
 //@ ensures [mono] forall i int :: 0 <= i && i < len(metadata) && metadata[i] != nil && old(wmAttOk(bytes(metadata[i].PubKey))) ==> wmAttOk(bytes(metadata[i].PubKey)) && wmAttS(bytes(metadata[i].PubKey)) >= old(wmAttS(bytes(metadata[i].PubKey))) && wmAttT(bytes(metadata[i].PubKey)) >= old(wmAttT(bytes(metadata[i].PubKey)))
 //@ ensures [frame] forall k Bytes :: (forall i int :: 0 <= i && i < len(metadata) && metadata[i] != nil ==> k != attKey(bytes(metadata[i].PubKey))) ==> ((k in db) <==> (k in old(db))) && db[k] == old(db)[k]
 
+// listing needs no rule beyond the permission check: the rules approve every listing request (C18 completeness)
 //@ iface Service.OnListAccounts(self, ctx, metadata, req)
-//@ ensures [verdicts] result == APPROVED || result == DENIED || result == FAILED || result == UNKNOWN
+//@ ensures [always] result == APPROVED
 
 //@ iface Service.OnLockWallet(self, ctx, metadata, req)
 //@ ensures [verdicts] result == APPROVED || result == DENIED || result == FAILED || result == UNKNOWN
